@@ -127,7 +127,7 @@ func ruleHeapIteration(w *World, r *Report, pfx string) {
 			okElem := false
 			if ld, ok := sent.(*ssa.UnOp); ok && ld.Op == token.MUL {
 				if ia, ok := ld.X.(*ssa.IndexAddr); ok {
-					if typeName(ia.X.Type()) == "mpb.priorityQueue" {
+					if w.isWholeHeap(ia.X, 0) {
 						okElem = true
 					}
 				}
